@@ -275,6 +275,12 @@ func c09TBLS(t *rapid.T, ev *evProp) {
 		violationOrKnown(t, ev, "C04/tbls/"+c.name+"/recover-panic", "Recover panicked: %s\n%s", pn, ctx)
 		return
 	}
+	// the same list again: Recover must not have disturbed the caller's partials
+	var rec2 []byte
+	var rerr2 error
+	if pn := safely(func() { rec2, rerr2 = ts.Recover(pub, msg, list, uint32(th), uint32(n)) }); pn != "" || (rerr == nil) != (rerr2 == nil) || !bytes.Equal(rec, rec2) {
+		violationOrKnown(t, ev, key("Recover-repeat"), "a second Recover on the same list gives %x err=%v %s, the first gave %x err=%v\n%s", rec2, rerr2, pn, rec, rerr, ctx)
+	}
 	if nvalid >= th {
 		if rerr != nil {
 			// classify the known duplicate defect precisely
